@@ -86,6 +86,10 @@ def general(draw, max_classes=4, max_nodes=7, max_props=4, max_stmts=30, bnodes=
     nodes = [["bnode", "_:b%d" % i] if is_b[i] else ["iri", node_iri(i, single_ns)] for i in range(n_nodes)]
     cls_b = bnode_classes and draw(st.booleans())
     classes = [["bnode", "_:c%d" % j] if (cls_b and j == n_classes - 1) else ["iri", class_iri(j)] for j in range(n_classes)]
+    if "odd_class_names" in quirks:
+        # class IRIs whose local name holds characters that are reserved in prefixed names (DBpedia / Wikipedia style)
+        odd = ["Musician,_solo", "Rock&Roll_Band", "What?", "A(b)", "x=y", "it's", "semi;colon", "plus+", "star*", "bang!"]
+        classes = [["iri", NS[0] + odd[j % len(odd)]] if (c[0] == "iri" and j % 2 == 0) else c for j, c in enumerate(classes)]
     if "same_local_classes" in quirks:
         # two classes with one local name in different namespaces (foaf:Person / schema:Person)
         classes = [["iri", NS[j % len(NS)] + "C%d" % (j // 2)] if c[0] == "iri" else c for j, c in enumerate(classes)]
